@@ -158,9 +158,15 @@ func NondetBytes(n int) []byte {
 	return b
 }
 
+// HintLo/HintHi tell the random generator of native translator-validation
+// runs in which range [lo, hi) the next "nat" is expected (no effect on replay).
+var HintLo, HintHi *big.Int
+
 // NondetBig returns an arbitrary non-negative integer below 256^maxBytes.
 func NondetBig(maxBytes int) *big.Int {
+	HintLo, HintHi = new(big.Int), new(big.Int).Lsh(big.NewInt(1), uint(8*maxBytes))
 	v := NondetNat()
+	HintLo, HintHi = nil, nil
 	Assume(v.Cmp(new(big.Int).Lsh(big.NewInt(1), uint(8*maxBytes))) < 0)
 	return v
 }
@@ -169,7 +175,13 @@ func NondetBig(maxBytes int) *big.Int {
 // (256^(n-1) <= v < 256^n; n = 0 gives 0). (intrinsic: the engine remembers
 // the byte length so that encoding the value does not fork)
 func NondetBigExact(n int) *big.Int {
+	if n == 0 {
+		HintLo, HintHi = new(big.Int), big.NewInt(1)
+	} else {
+		HintLo, HintHi = new(big.Int).Lsh(big.NewInt(1), uint(8*(n-1))), new(big.Int).Lsh(big.NewInt(1), uint(8*n))
+	}
 	v := NondetNat()
+	HintLo, HintHi = nil, nil
 	if n == 0 {
 		Assume(v.Sign() == 0)
 		return v
